@@ -7,6 +7,11 @@
   parameters: the theorems hold for all of them, for any number of pools / vaults / assets, any pending
   amounts, any registry state.
 
+  `CollectFees` / `AggregateFees` can also be sent to the collector directly by anybody (no sender check
+  in the code); `direct_*` below say what that does: collection moves exactly the collectable pending
+  fees of the named contracts, aggregation only converts collector balances, nothing reaches the DAO or
+  the distributor.
+
   PARTIAL (by design, see DESIGN §5/C10): "a failed step leaves every balance unchanged" is CosmWasm's
   transaction atomicity.  In the model it holds by construction (`Res`: `.err`/`.panic` carry no state,
   `Feeflow.step` returns the old state's observation), so there is nothing to prove; on the real stack
@@ -180,6 +185,103 @@ theorem epoch_total_eq (cfg : Feeflow.Cfg) (s s' : Feeflow.St) (now : Nat) (rout
         rw [← Distributor.takeOut_rolled]
         exact Distributor.aggOpt_amt hagg
 
+/-! ### `CollectFees` / `AggregateFees` sent to the collector directly, in mid-history
+
+  Both entry points are permissionless in the code (no look at `info.sender`): the theorems below hold
+  for every sender.  Sent directly they carry no reply id, so nothing reaches the DAO or the distributor. -/
+
+/-- **direct_any_sender** — the outcome of a direct `CollectFees` / `AggregateFees` does not depend on who
+    sent it (owner, any user, a stranger, the collector itself). -/
+theorem direct_any_sender (cfg : Cfg) (s : St) (a b : Nat) (f : FeesFor) (router : Nat → Nat → Nat → Nat)
+    (acc : Nat → Nat → Nat) :
+    collectFees s a f = collectFees s b f ∧
+    aggregateFees cfg s a f router acc = aggregateFees cfg s b f router acc :=
+  ⟨collectFees_any_sender s a b f, aggregateFees_any_sender cfg s a b f router acc⟩
+
+/-- **direct_collect_exact** — a successful direct `CollectFees`: for every asset the collector's balance
+    grows by exactly what the named contracts send (all pending fees of a named vault; the entries above
+    the collectable minimum of a named / listed pair), exactly that amount leaves the pending ledgers
+    (collector + pending is conserved per asset), and the DAO, the take-rate history, the configuration
+    and the routes are untouched. -/
+theorem direct_collect_exact (s s' : St) (sender : Nat) (f : FeesFor) (h : collectFees s sender f = .ok s') :
+    (∀ i, s'.bal i = s.bal i + directCollected s f i) ∧
+    (∀ i, s'.bal i + vaultsCollected i s'.vaults + poolsPending i s'.pools =
+          s.bal i + vaultsCollected i s.vaults + poolsPending i s.pools) ∧
+    s'.dao = s.dao ∧ s'.trh = s.trh ∧ s'.rate = s.rate ∧ s'.active = s.active ∧ s'.daoSet = s.daoSet ∧
+    s'.routes = s.routes := by
+  refine ⟨fun i => (collectFees_spec h i).1, fun i => ?_, collectFees_rest h⟩
+  obtain ⟨h1, h2⟩ := collectFees_spec h i
+  omega
+
+/-- the pending ledgers after a direct `CollectFees` for a factory are those after the corresponding
+    stage of `ForwardFees` (`pending_after`); the other kind of contract is not touched -/
+theorem direct_collect_pending_after (s s' : St) (sender : Nat) :
+    (collectFees s sender .vaultFactory = .ok s' → s'.vaults = vaultsAfter s.vaults ∧ s'.pools = s.pools) ∧
+    (collectFees s sender .poolFactory = .ok s' → s'.pools = poolsAfter s.pools ∧ s'.vaults = s.vaults) := by
+  constructor <;> intro h <;> simp only [collectFees] at h <;> injection h with h <;> subst h <;> exact ⟨rfl, rfl⟩
+
+/-- **direct_aggregate_only_converts** — a successful direct `AggregateFees` names a factory (never
+    `Contracts`); the collector's distribution-asset balance grows by exactly what the router paid (it
+    never falls); every other asset is untouched or swapped in full, and swapped only above the
+    aggregation minimum with a simulating registered route; the pairs only gain what the swaps accrued;
+    vaults, DAO, take-rate history and configuration are untouched. -/
+theorem direct_aggregate_only_converts (cfg : Cfg) (s s' : St) (sender : Nat) (f : FeesFor)
+    (router : Nat → Nat → Nat → Nat) (acc : Nat → Nat → Nat) (inn : Nat) (sw : List (Nat × Nat × Nat))
+    (h : aggregateFees cfg s sender f router acc = .ok (s', inn, sw)) :
+    (f = .vaultFactory ∨ f = .poolFactory) ∧
+    s'.bal cfg.dist = s.bal cfg.dist + inn ∧
+    (∀ i, i ≠ cfg.dist →
+      s'.bal i = s.bal i ∨ (s'.bal i = 0 ∧ AGG_T < s.bal i ∧ simOk s.pools (s.routes i) = true)) ∧
+    s'.pools = addAcc acc 0 s.pools ∧ s'.vaults = s.vaults ∧
+    s'.dao = s.dao ∧ s'.trh = s.trh ∧ s'.rate = s.rate ∧ s'.active = s.active ∧ s'.daoSet = s.daoSet ∧
+    s'.routes = s.routes := by
+  obtain ⟨cands, b, hc, hne, ha, hs'⟩ := aggregateFees_spec h
+  obtain ⟨e0, f0⟩ := aggregate_spec _ _ _ _ _ _ _ _ _ _ hne ha
+  subst hs'
+  refine ⟨?_, e0, fun i hi => ?_, rfl, rfl, rfl, rfl, rfl, rfl, rfl, rfl⟩
+  · cases f with
+    | vaultFactory => exact Or.inl rfl
+    | poolFactory => exact Or.inr rfl
+    | wrongFactory => simp [aggCands] at hc
+    | onePool k => simp [aggCands] at hc
+    | oneVault k => simp [aggCands] at hc
+  · cases f0 i hi with
+    | inl u => exact Or.inl u
+    | inr w => exact Or.inr ⟨w.1, w.2.1, w.2.2.1⟩
+
+/-- `AggregateFees { Contracts {..} }` and a factory that cannot answer are rejected, whoever sends them -/
+theorem direct_aggregate_rejects (cfg : Cfg) (s : St) (sender k : Nat) (router : Nat → Nat → Nat → Nat)
+    (acc : Nat → Nat → Nat) :
+    aggregateFees cfg s sender (.onePool k) router acc = .err ∧
+    aggregateFees cfg s sender (.oneVault k) router acc = .err ∧
+    aggregateFees cfg s sender .wrongFactory router acc = .err :=
+  ⟨rfl, rfl, rfl⟩
+
+/-- on the joint machine the direct ops change nothing of the distributor, the bonders or the lair view -/
+theorem direct_ops_leave_distributor (cfg : Feeflow.Cfg) (s s' : Feeflow.St) (sender : Nat) (f : FeesFor)
+    (router : Nat → Nat → Nat → Nat) (acc : Nat → Nat → Nat) :
+    (Feeflow.step cfg s (.collect sender f) = .ok s' → s'.d = s.d ∧ s'.ub = s.ub ∧ s'.view = s.view ∧ s'.c.dao = s.c.dao) ∧
+    (Feeflow.step cfg s (.aggregate sender f router acc) = .ok s' →
+      s'.d = s.d ∧ s'.ub = s.ub ∧ s'.view = s.view ∧ s'.c.dao = s.c.dao) := by
+  constructor
+  · intro h
+    simp only [Feeflow.step] at h
+    cases hc : collectFees s.c sender f with
+    | err => rw [hc] at h; cases h
+    | panic => rw [hc] at h; cases h
+    | ok c' =>
+      rw [hc] at h; simp only at h; injection h with h; subst h
+      exact ⟨rfl, rfl, rfl, (collectFees_rest hc).1⟩
+  · intro h
+    simp only [Feeflow.step] at h
+    cases hc : aggregateFees cfg.c s.c sender f router acc with
+    | err => rw [hc] at h; cases h
+    | panic => rw [hc] at h; cases h
+    | ok pr =>
+      obtain ⟨c', inn, sw⟩ := pr
+      rw [hc] at h; simp only at h; injection h with h; subst h
+      exact ⟨rfl, rfl, rfl, (direct_aggregate_only_converts _ _ _ _ _ _ _ _ _ hc).2.2.2.2.2.1⟩
+
 /-- the documented thresholds: a pair sends pending entries above 1000, the collector swaps balances
     above 1000 (regenerated from the sources on every run; a changed constant breaks this obligation) -/
 theorem thresholds_documented : PAIR_T = 1000 ∧ AGG_T = 1000 := by decide
@@ -214,5 +316,30 @@ example : out0.map (fun o => (o.st.pools.map (fun p => (p.pa, p.pb)), o.st.vault
 example : (forwardFees cfg0 st0 1002 5 (fun _ _ _ => 2400) (fun _ _ => 0)).isOk = false := by decide
 example : (forwardFees cfg0 { st0 with pools := st0.pools.map fun p => { p with on := false } } 2000 5
     (fun _ _ _ => 2400) (fun _ _ => 0)).isOk = false := by decide
+
+/-- direct ops on `st0`, sent by a stranger (1002): `CollectFees` for the pool factory moves the 5000 uatom
+    and the 1001 uwhale, the 1000 uwhale stay pending; for the vault factory the 2500 uusdc and 7 uwhale;
+    naming pair 0 as a contract moves only its 5000 uatom -/
+example : ((collectFees st0 1002 .poolFactory).toOption.map fun s => (s.bal 0, s.bal 1, s.bal 2, s.dao)) =
+    some (5000, 0, 1041, 0) := by decide
+example : ((collectFees st0 1002 .poolFactory).toOption.map fun s =>
+    (s.pools.map (fun p => (p.pa, p.pb)), s.vaults.map (·.pend))) = some ([(0, 1000), (0, 0)], [7, 2500]) := by decide
+example : ((collectFees st0 1002 .vaultFactory).toOption.map fun s => (s.bal 0, s.bal 1, s.bal 2)) =
+    some (0, 2500, 47) := by decide
+example : ((collectFees st0 1002 .vaultFactory).toOption.map fun s =>
+    (s.pools.map (fun p => (p.pa, p.pb)), s.vaults.map (·.pend))) = some ([(5000, 1000), (0, 1001)], [0, 0]) := by decide
+example : ((collectFees st0 1002 (.onePool 0)).toOption.map fun s =>
+    (s.bal 0, s.bal 1, s.bal 2, s.pools.map (fun p => (p.pa, p.pb)))) =
+    some (5000, 0, 40, [(0, 1000), (0, 1001)]) := by decide
+example : (collectFees st0 1002 (.onePool 9)).isOk = false ∧ (collectFees st0 1000 .wrongFactory).isOk = false := by decide
+
+/-- after the vault collection a direct `AggregateFees` (vault factory) swaps the 2500 uusdc for 2400 uwhale,
+    which stay in the collector: nothing for the DAO although the take rate is active -/
+def agg0 : Option (St × Nat × List (Nat × Nat × Nat)) :=
+  (collectFees st0 1002 .vaultFactory).toOption.bind fun s =>
+    (aggregateFees cfg0 s 1002 .vaultFactory (fun _ _ _ => 2400) (fun _ _ => 0)).toOption
+example : agg0.map (fun r => (r.1.bal 0, r.1.bal 1, r.1.bal 2, r.1.dao)) = some (0, 0, 2447, 0) := by decide
+example : agg0.map (fun r => (r.1.trh, r.2.1, r.2.2)) = some ([], 2400, [(0, 1, 2500)]) := by decide
+example : (aggregateFees cfg0 st0 1000 (.onePool 0) (fun _ _ _ => 0) (fun _ _ => 0)).isOk = false := by decide
 
 end WW.C10
